@@ -29,8 +29,6 @@ package main
 import (
 	"encoding/json"
 	"fmt"
-	"os"
-	"runtime/pprof"
 	"sort"
 	"strings"
 	"sync"
@@ -804,11 +802,6 @@ type job struct {
 }
 
 func run(c *core.Ctx) {
-	if p := os.Getenv("C09_CPUPROFILE"); p != "" {
-		f, _ := os.Create(p)
-		pprof.StartCPUProfile(f)
-		defer pprof.StopCPUProfile()
-	}
 	maxLen := 5
 	if c.Quick() {
 		maxLen = 4
